@@ -23,6 +23,11 @@ import (
 type c19Case struct {
 	E  mon.ElemCase `json:"elem"`
 	Ks []string     `json:"scalars"` // compared against the reference scalar 0
+	// Alt: scalars (by value) held in their second 256-bit limb representation, stored limbs + n, written through the
+	// exported field Scalar.S (possible when the stored limbs are below 2^256-n); the same scalar, the same result.
+	Alt []string `json:"scalars_in_second_representation,omitempty"`
+	// Moves: scalar objects that reached their value through a mutator of the API instead of having limbs written.
+	Moves []mon.ScalarMove `json:"scalar_moves,omitempty"`
 }
 
 func init() {
@@ -38,7 +43,7 @@ func init() {
 		Generate: c19Generate,
 		Run:      c19Run,
 		Require: func(string) map[string]int64 {
-			return map[string]int64{"traces": 2000, "points": 20, "k:bit255": 500, "k:pow2": 256, "trace-events-min-ok": 20, "P=O": 2, "repr:scaled": 5, "repeated-immediately": 300}
+			return map[string]int64{"traces": 2000, "points": 20, "k:bit255": 500, "k:pow2": 256, "trace-events-min-ok": 20, "P=O": 2, "repr:scaled": 5, "repeated-immediately": 300, "k:second-representation": 50, "k:moved": 100}
 		},
 	})
 }
@@ -111,6 +116,42 @@ func c19Generate(c *mon.Ctx) {
 			e := mon.MkElemCase(pv, rp)
 			c.Structured(func() any { return &c19Case{E: e, Ks: ks} })
 		}
+	}
+
+	// scalars in their second limb representation: value m/R mod n has stored limbs m, and m+n fits in 256 bits for m < 2^256-n
+	rinv := new(big.Int).ModInverse(new(big.Int).Lsh(big.NewInt(1), 256), n)
+	gap := new(big.Int).Sub(new(big.Int).Lsh(big.NewInt(1), 256), n)
+	ar := c.SharedRng("alt")
+
+	var alts []string
+
+	for _, m := range []*big.Int{big.NewInt(0), big.NewInt(1), big.NewInt(2), big.NewInt(3), new(big.Int).Lsh(big.NewInt(1), 64), new(big.Int).Lsh(big.NewInt(1), 127),
+		new(big.Int).Sub(gap, big.NewInt(1)), new(big.Int).Sub(gap, big.NewInt(2)), oracle.Mod(gen.Draw(ar, n).X, gap), oracle.Mod(gen.Draw(ar, n).X, gap), oracle.Mod(gen.Draw(ar, n).X, gap)} {
+		k := oracle.Mod(new(big.Int).Mul(m, rinv), n)
+		if k.Cmp(big.NewInt(1)) != 0 {
+			alts = append(alts, fmt.Sprintf("%x", k))
+		}
+	}
+
+	hr := c.SharedRng("moves")
+
+	for i, pv := range pool.All {
+		if i%4 != 0 && i > 4 {
+			continue
+		}
+
+		reprs := gen.StructuredReprs(pv.P.IsInf())
+		e := mon.MkElemCase(pv, reprs[i%len(reprs)])
+
+		var mvs []mon.ScalarMove
+
+		for _, via := range mon.ScalarVias {
+			if mv := mon.PlanScalarMove(via, hr); mon.BigH(mv.To).Cmp(big.NewInt(1)) != 0 {
+				mvs = append(mvs, mv)
+			}
+		}
+
+		c.Structured(func() any { return &c19Case{E: e, Alt: alts, Moves: mvs} })
 	}
 
 	c.Random(c.N(300, 30000), func(r *gen.Rng) any {
@@ -195,19 +236,62 @@ func c19Run(c *mon.Ctx, csAny any) {
 	c.Count("trace-events-min-ok")
 	c.CountN("trace-events-total", int64(refN))
 
-	for ki, kh := range cs.Ks {
+	type traced struct {
+		kh   string
+		how  string
+		make func() *secp256k1.Scalar
+	}
+
+	var list []traced
+
+	for _, kh := range cs.Ks {
 		k := mon.BigH(kh)
+		list = append(list, traced{kh, "", func() *secp256k1.Scalar { return mon.Scal(k) }})
+	}
+
+	for _, kh := range cs.Alt {
+		k := mon.BigH(kh)
+		list = append(list, traced{kh, " held as stored limbs + n", func() *secp256k1.Scalar {
+			s := mon.Scal(k)
+
+			alt := new(big.Int).Add(oracle.FromLimbs(s.S), oracle.N)
+			if alt.BitLen() > 256 {
+				panic("harness: scalar has no second limb representation")
+			}
+
+			s.S = oracle.Limbs(alt)
+			c.Count("k:second-representation")
+
+			return s
+		}})
+	}
+
+	for _, mv := range cs.Moves {
+		mv := mv
+		list = append(list, traced{mv.To, " reached through " + mv.Via, func() *secp256k1.Scalar {
+			s := mon.Scal(mon.BigH(mv.From))
+			s.Bits()
+			mon.ApplyScalarMove(s, mv)
+			c.Count("k:moved")
+
+			return s
+		}})
+	}
+
+	for ki, t := range list {
+		kh := t.kh + t.how
+		k := mon.BigH(t.kh)
 		if k.Cmp(big.NewInt(1)) == 0 {
 			continue
 		}
 
-		n, h, seq, pan, pv := c19Trace(cs.E.Build(), mon.Scal(k))
+		n, h, seq, pan, pv := c19Trace(cs.E.Build(), t.make())
 
 		if ki%4 == 0 && !pan && n == refN && h == refH {
 			// the same (point, scalar) again, immediately: a "last result" memo would make the second run shorter
 			c.Count("repeated-immediately")
 			c.Eval(1)
-			n, h, seq, pan, pv = c19Trace(cs.E.Build(), mon.Scal(k))
+			n, h, seq, pan, pv = c19Trace(cs.E.Build(), t.make())
 		}
 
 		c.Eval(1)
